@@ -1,1 +1,738 @@
-(** Model/Alias.v — placeholder, to be written. *)
+(** Model/Alias.v — a heap machine for the aliasing between the run-time context and the
+    cached PipelineDefinition / config.vars objects (property C12).
+
+    The engine model (Engine.v) works on VALUES; "the cached definition was changed through
+    an alias" is invisible there.  Here objects have identities:
+
+      id    ::= D n            an object of the DEFINITION region (cached pipeline yaml, config.vars);
+                               this region persists across runs — it is the cache
+              | P n            an object private to ONE run (its own id namespace: [P n] of run A
+                               and [P n] of run B are different objects, so allocation is
+                               schedule-independent by construction)
+      cell  ::= CInt z | CPtr id          what a container slot / a context key holds
+                                          (immutable scalars have no identity worth modelling)
+      obj   ::= OList cells | ODict (key -> cell)
+
+    [step dh p o] = effect of one abstract operation [o] of a run with private state [p]
+    on the definition heap [dh].  The operations are the effects of pypyr's code:
+
+      InjectIn k c     Step.set_step_input_context / pypyr.steps.configvars: context.update(in)
+                       — context[k] IS the definition's object (no copy)
+      Unset k          Step.unset_step_input_context: context.pop(k, None)
+      SetFmt k t       pypyr.steps.set / contextsetf / the foreach copy: context[k] = format(t)
+                       (formatting REBUILDS containers; '{k}' deep-copies context[k] with the
+                        formatter's memo; '{k:ff}' and !py k yield THE SAME object)
+      CopyRef k k'     pypyr.steps.contextcopy: context[k] = context[k']
+      AppendKey k t    pypyr.steps.append with list: k (a context key)
+      AppendObj m k t  pypyr.steps.append with list: '{k:ff}' / !py k (the object itself)
+      PyAppend k z     pypyr.steps.py  "k.append(z)"
+      PySetItem k s z  pypyr.steps.py  "k[s] = z"
+      Merge ps         pypyr.steps.contextmerge  (Context.merge: in-place list extend / dict recursion)
+      Defaults ps      pypyr.steps.default       (Context.set_defaults)
+      BindElem k k' n  foreach: context[k] = n-th element of the (already formatted) list
+      SetInt k z       decorator counters (retryCounter)
+      Probe            harness probe step: snapshot of the context (by value) onto the trace
+
+    Step bodies' own arguments (set:, append:, contextMerge: ...) are [tree]s, not heap
+    objects: the code only ever formats them (a rebuilt copy), so nothing can alias them. *)
+From Coq Require Import List String Ascii ZArith Bool Arith.
+Import ListNotations.
+Open Scope string_scope.
+Open Scope list_scope.
+
+Inductive id := D (n : nat) | P (n : nat).
+Inductive cell := CInt (z : Z) | CPtr (i : id).
+Inductive obj := OList (l : list cell) | ODict (d : list (string * cell)).
+Definition heap := list obj.
+
+Inductive rmode := RCopy | RFlat | RPy.        (* '{k}'   '{k:ff}'   !py k *)
+Inductive tree :=
+| TInt (z : Z)
+| TRef (m : rmode) (k : string)
+| TList (l : list tree)
+| TDict (d : list (string * tree)).
+
+Inductive status := Running | Failed (e : string) | Unsup.
+
+Definition snapshot := list (string * tree).
+
+Record priv := mkpriv {
+  ctx : list (string * cell);      (* the run's Context: insertion-ordered *)
+  ph : heap;                       (* objects created by this run *)
+  st : status;
+  trace : list snapshot }.
+
+(* ---------------------------------------------------------------- association lists *)
+Fixpoint aget {A} (k : string) (d : list (string * A)) : option A :=
+  match d with
+  | [] => None
+  | (k', v) :: r => if String.eqb k k' then Some v else aget k r
+  end.
+
+(* dict.__setitem__: replace in place, else append *)
+Fixpoint aset {A} (k : string) (v : A) (d : list (string * A)) : list (string * A) :=
+  match d with
+  | [] => [(k, v)]
+  | (k', v') :: r => if String.eqb k k' then (k', v) :: r else (k', v') :: aset k v r
+  end.
+
+Fixpoint adel {A} (k : string) (d : list (string * A)) : list (string * A) :=
+  match d with
+  | [] => []
+  | (k', v') :: r => if String.eqb k k' then adel k r else (k', v') :: adel k r
+  end.
+
+(* ---------------------------------------------------------------- heap *)
+Definition id_eqb (a b : id) : bool :=
+  match a, b with
+  | D n, D m => Nat.eqb n m
+  | P n, P m => Nat.eqb n m
+  | _, _ => false
+  end.
+
+Fixpoint upd (n : nat) (o : obj) (h : heap) : heap :=
+  match h, n with
+  | [], _ => []
+  | _ :: r, O => o :: r
+  | x :: r, S m => x :: upd m o r
+  end.
+
+Definition hget (dh h : heap) (i : id) : option obj :=
+  match i with D n => nth_error dh n | P n => nth_error h n end.
+
+(* THE ONLY WRITE: an in-place change of an existing object.  A [D] target changes the
+   definition heap. *)
+Definition hput (dh h : heap) (i : id) (o : obj) : heap * heap :=
+  match i with D n => (upd n o dh, h) | P n => (dh, upd n o h) end.
+
+Definition set_ctx (c : list (string * cell)) (p : priv) := mkpriv c (ph p) (st p) (trace p).
+Definition set_ph (h : heap) (p : priv) := mkpriv (ctx p) h (st p) (trace p).
+Definition set_st (s : status) (p : priv) := mkpriv (ctx p) (ph p) s (trace p).
+Definition fail (e : string) (p : priv) := set_st (Failed e) p.
+Definition unsup (p : priv) := set_st Unsup p.
+Definition running (p : priv) : bool := match st p with Running => true | _ => false end.
+
+Definition alloc (o : obj) (p : priv) : priv * cell :=
+  (set_ph (ph p ++ [o]) p, CPtr (P (List.length (ph p)))).
+
+(* ---------------------------------------------------------------- deep copy = what
+   RecursiveFormatter._get_formatted_iterable does to a value without format strings:
+   every container is rebuilt (obj.__class__(...)), scalars pass through, and [memo]
+   (id(obj) -> copy) makes an object met twice come out as ONE copy. *)
+Definition memo := list (id * id).
+Fixpoint mfind (i : id) (m : memo) : option id :=
+  match m with
+  | [] => None
+  | (a, b) :: r => if id_eqb i a then Some b else mfind i r
+  end.
+
+Section CopyList.
+  Context (go : heap -> memo -> cell -> option (heap * memo * cell)).
+  Fixpoint copy_cells (l : list cell) (h : heap) (m : memo) : option (heap * memo * list cell) :=
+    match l with
+    | [] => Some (h, m, [])
+    | c :: r =>
+      match go h m c with
+      | None => None
+      | Some (h1, m1, c') =>
+        match copy_cells r h1 m1 with
+        | None => None
+        | Some (h2, m2, cs) => Some (h2, m2, c' :: cs)
+        end
+      end
+    end.
+  Fixpoint copy_pairs (l : list (string * cell)) (h : heap) (m : memo)
+    : option (heap * memo * list (string * cell)) :=
+    match l with
+    | [] => Some (h, m, [])
+    | (k, c) :: r =>
+      match go h m c with
+      | None => None
+      | Some (h1, m1, c') =>
+        match copy_pairs r h1 m1 with
+        | None => None
+        | Some (h2, m2, cs) => Some (h2, m2, (k, c') :: cs)
+        end
+      end
+    end.
+End CopyList.
+
+Fixpoint copy (fuel : nat) (dh : heap) (h : heap) (m : memo) (c : cell)
+  : option (heap * memo * cell) :=
+  match c with
+  | CInt _ => Some (h, m, c)
+  | CPtr i =>
+    match mfind i m with
+    | Some j => Some (h, m, CPtr j)
+    | None =>
+      match fuel with
+      | O => None
+      | S f =>
+        match hget dh h i with
+        | None => None
+        | Some (OList l) =>
+          match copy_cells (copy f dh) l h m with
+          | None => None
+          | Some (h1, m1, cs) =>
+            Some (h1 ++ [OList cs], (i, P (List.length h1)) :: m1, CPtr (P (List.length h1)))
+          end
+        | Some (ODict d) =>
+          match copy_pairs (copy f dh) d h m with
+          | None => None
+          | Some (h1, m1, cs) =>
+            Some (h1 ++ [ODict cs], (i, P (List.length h1)) :: m1, CPtr (P (List.length h1)))
+          end
+        end
+      end
+    end
+  end.
+
+(* ---------------------------------------------------------------- formatting a step
+   argument (Context.get_formatted_value on a literal from the pipeline yaml) *)
+Definition missing_err (m : rmode) : string :=
+  match m with RPy => "NameError" | _ => "pypyr.errors.KeyNotInContextError" end.
+
+Section FmtList.
+  Context (f : tree -> priv -> priv * cell).
+  Fixpoint fmt_cells (l : list tree) (p : priv) : priv * list cell :=
+    match l with
+    | [] => (p, [])
+    | t :: r =>
+      let '(p1, c) := f t p in
+      if running p1 then let '(p2, cs) := fmt_cells r p1 in (p2, c :: cs) else (p1, [])
+    end.
+  Fixpoint fmt_pairs (l : list (string * tree)) (p : priv) : priv * list (string * cell) :=
+    match l with
+    | [] => (p, [])
+    | (k, t) :: r =>
+      let '(p1, c) := f t p in
+      if running p1 then let '(p2, cs) := fmt_pairs r p1 in (p2, (k, c) :: cs) else (p1, [])
+    end.
+End FmtList.
+
+Fixpoint fmt (fuel : nat) (dh : heap) (t : tree) (p : priv) {struct t} : priv * cell :=
+  match t with
+  | TInt z => (p, CInt z)
+  | TRef m k =>
+    match aget k (ctx p) with
+    | None => (fail (missing_err m) p, CInt 0)
+    | Some c =>
+      match m with
+      | RCopy =>
+        match copy fuel dh (ph p) [] c with
+        | Some (h, _, c') => (set_ph h p, c')
+        | None => (unsup p, CInt 0)
+        end
+      | _ => (p, c)                (* the very same object *)
+      end
+    end
+  | TList l =>
+    let '(p1, cs) := fmt_cells (fmt fuel dh) l p in
+    if running p1 then alloc (OList cs) p1 else (p1, CInt 0)
+  | TDict d =>
+    let '(p1, cs) := fmt_pairs (fmt fuel dh) d p in
+    if running p1 then alloc (ODict cs) p1 else (p1, CInt 0)
+  end.
+
+(* ---------------------------------------------------------------- locations: the context
+   itself or a dict object — Context.merge / set_defaults recurse over both the same way *)
+Inductive loc := LCtx | LObj (i : id).
+
+Definition lget (dh : heap) (p : priv) (l : loc) (k : string) : option cell :=
+  match l with
+  | LCtx => aget k (ctx p)
+  | LObj i => match hget dh (ph p) i with Some (ODict d) => aget k d | _ => None end
+  end.
+
+(* current[k] = c *)
+Definition lset (l : loc) (k : string) (c : cell) (dh : heap) (p : priv) : heap * priv :=
+  match l with
+  | LCtx => (dh, set_ctx (aset k c (ctx p)) p)
+  | LObj i =>
+    match hget dh (ph p) i with
+    | Some (ODict d) => let '(dh', h') := hput dh (ph p) i (ODict (aset k c d)) in (dh', set_ph h' p)
+    | _ => (dh, unsup p)
+    end
+  end.
+
+Definition fmt_set (fuel : nat) (l : loc) (k : string) (v : tree) (dh : heap) (p : priv)
+  : heap * priv :=
+  let '(p1, c) := fmt fuel dh v p in
+  if running p1 then lset l k c dh p1 else (dh, p1).
+
+Section SubPairs.
+  Context (f : string -> tree -> heap -> priv -> heap * priv).
+  Fixpoint sub_pairs (ps : list (string * tree)) (dh : heap) (p : priv) : heap * priv :=
+    match ps with
+    | [] => (dh, p)
+    | (k, v) :: r => let '(dh1, p1) := f k v dh p in sub_pairs r dh1 p1
+    end.
+End SubPairs.
+
+(* Context.merge's merge_recurse, one (k, v) of add_me against [l] *)
+Fixpoint merge_tree (fuel : nat) (l : loc) (k : string) (v : tree) (dh : heap) (p : priv)
+  {struct v} : heap * priv :=
+  if negb (running p) then (dh, p) else
+  match v with
+  | TDict sub =>
+    match lget dh p l k with
+    | Some (CPtr i) =>
+      match hget dh (ph p) i with
+      | Some (ODict _) =>
+        sub_pairs (merge_tree fuel (LObj i)) sub dh p
+      | _ => fmt_set fuel l k v dh p
+      end
+    | _ => fmt_set fuel l k v dh p
+    end
+  | TList _ =>
+    match lget dh p l k with
+    | Some (CPtr i) =>
+      match hget dh (ph p) i with
+      | Some (OList cur) =>
+        (* current[k].extend(get_formatted_value(v)) *)
+        let '(p1, c) := fmt fuel dh v p in
+        if running p1 then
+          match c with
+          | CPtr j =>
+            match hget dh (ph p1) j with
+            | Some (OList new) =>
+              let '(dh', h') := hput dh (ph p1) i (OList (cur ++ new)) in (dh', set_ph h' p1)
+            | _ => (dh, unsup p1)
+            end
+          | _ => (dh, unsup p1)
+          end
+        else (dh, p1)
+      | _ => fmt_set fuel l k v dh p
+      end
+    | _ => fmt_set fuel l k v dh p
+    end
+  | _ => fmt_set fuel l k v dh p
+  end.
+
+Definition merge_pairs (fuel : nat) (l : loc) := sub_pairs (merge_tree fuel l).
+
+(* Context.set_defaults' defaults_recurse, one (k, v) *)
+Fixpoint defaults_tree (fuel : nat) (l : loc) (k : string) (v : tree) (dh : heap) (p : priv)
+  {struct v} : heap * priv :=
+  if negb (running p) then (dh, p) else
+  match lget dh p l k with
+  | None => fmt_set fuel l k v dh p
+  | Some c =>
+    match v, c with
+    | TDict sub, CPtr i =>
+      match hget dh (ph p) i with
+      | Some (ODict _) =>
+        sub_pairs (defaults_tree fuel (LObj i)) sub dh p
+      | _ => (dh, p)
+      end
+    | _, _ => (dh, p)
+    end
+  end.
+
+Definition defaults_pairs (fuel : nat) (l : loc) := sub_pairs (defaults_tree fuel l).
+
+(* ---------------------------------------------------------------- values *)
+Fixpoint resolve (fuel : nat) (dh h : heap) (c : cell) : tree :=
+  match c with
+  | CInt z => TInt z
+  | CPtr i =>
+    match fuel with
+    | O => TRef RCopy "<deep>"
+    | S f =>
+      match hget dh h i with
+      | Some (OList l) => TList (map (resolve f dh h) l)
+      | Some (ODict d) => TDict (map (fun kc => (fst kc, resolve f dh h (snd kc))) d)
+      | None => TRef RCopy "<dangling>"
+      end
+    end
+  end.
+
+Definition hidden (k : string) : bool :=
+  match k with String "$"%char _ => true | _ => false end.
+
+Definition snap (fuel : nat) (dh : heap) (p : priv) : snapshot :=
+  map (fun kc => (fst kc, resolve fuel dh (ph p) (snd kc)))
+      (filter (fun kc => negb (hidden (fst kc))) (ctx p)).
+
+(* ---------------------------------------------------------------- operations *)
+Inductive op :=
+| InjectIn (k : string) (c : cell)
+| Unset (k : string)
+| SetFmt (k : string) (t : tree)
+| CopyRef (k k' : string)
+| AppendKey (k : string) (t : tree)
+| AppendObj (m : rmode) (k : string) (t : tree)
+| PyAppend (k : string) (z : Z)
+| PySetItem (k s : string) (z : Z)
+| Merge (ps : list (string * tree))
+| Defaults (ps : list (string * tree))
+| BindElem (k k' : string) (n : nat)
+| SetInt (k : string) (z : Z)
+| Probe.
+
+Definition FUEL : nat := 40.
+
+Definition truthy (dh : heap) (p : priv) (c : cell) : option bool :=
+  match c with
+  | CInt z => Some (negb (Z.eqb z 0))
+  | CPtr i =>
+    match hget dh (ph p) i with
+    | Some (OList []) | Some (ODict []) => Some false
+    | Some _ => Some true
+    | None => None
+    end
+  end.
+
+(* lst.append(a) on whatever [c] is *)
+Definition append_to (dh : heap) (p : priv) (c : cell) (a : cell) : heap * priv :=
+  match c with
+  | CInt _ => (dh, fail "AttributeError" p)
+  | CPtr i =>
+    match hget dh (ph p) i with
+    | Some (OList l) => let '(dh', h') := hput dh (ph p) i (OList (l ++ [a])) in (dh', set_ph h' p)
+    | Some (ODict _) => (dh, fail "AttributeError" p)
+    | None => (dh, unsup p)
+    end
+  end.
+
+Definition bind_new_list (k : string) (a : cell) (p : priv) : priv :=
+  let '(p1, c) := alloc (OList [a]) p in set_ctx (aset k c (ctx p1)) p1.
+
+Definition step (dh : heap) (p : priv) (o : op) : heap * priv :=
+  if negb (running p) then (dh, p) else
+  match o with
+  | InjectIn k c => (dh, set_ctx (aset k c (ctx p)) p)
+  | Unset k => (dh, set_ctx (adel k (ctx p)) p)
+  | SetFmt k t => fmt_set FUEL LCtx k t dh p
+  | CopyRef k k' =>
+    match aget k' (ctx p) with
+    | Some c => (dh, set_ctx (aset k c (ctx p)) p)
+    | None => (dh, fail "pypyr.errors.KeyNotInContextError" p)
+    end
+  | AppendKey k t =>
+    (* step_input = get_formatted('append'); existing = context.get(k);
+       if existing: existing.append(add_me) else: context[k] = [add_me] *)
+    let '(p1, a) := fmt FUEL dh t p in
+    if running p1 then
+      match aget k (ctx p1) with
+      | None => (dh, bind_new_list k a p1)
+      | Some c =>
+        match truthy dh p1 c with
+        | Some true => append_to dh p1 c a
+        | Some false => (dh, bind_new_list k a p1)
+        | None => (dh, unsup p1)
+        end
+      end
+    else (dh, p1)
+  | AppendObj m k t =>
+    (* list: is formatted first ('{k:ff}' / !py k -> the object), then addMe *)
+    match aget k (ctx p) with
+    | None => (dh, fail (missing_err m) p)
+    | Some c =>
+      let '(p1, a) := fmt FUEL dh t p in
+      if running p1 then
+        match truthy dh p1 c with
+        | Some true => append_to dh p1 c a
+        | Some false => (dh, fail "pypyr.errors.KeyInContextHasNoValueError" p1)
+        | None => (dh, unsup p1)
+        end
+      else (dh, p1)
+    end
+  | PyAppend k z =>
+    match aget k (ctx p) with
+    | None => (dh, fail "NameError" p)
+    | Some c => append_to dh p c (CInt z)
+    end
+  | PySetItem k s z =>
+    match aget k (ctx p) with
+    | None => (dh, fail "NameError" p)
+    | Some (CInt _) => (dh, fail "TypeError" p)
+    | Some (CPtr i) =>
+      match hget dh (ph p) i with
+      | Some (ODict d) => let '(dh', h') := hput dh (ph p) i (ODict (aset s (CInt z) d)) in (dh', set_ph h' p)
+      | Some (OList _) => (dh, fail "TypeError" p)
+      | None => (dh, unsup p)
+      end
+    end
+  | Merge ps => merge_pairs FUEL LCtx ps dh p
+  | Defaults ps => defaults_pairs FUEL LCtx ps dh p
+  | BindElem k k' n =>
+    match aget k' (ctx p) with
+    | Some (CPtr i) =>
+      match hget dh (ph p) i with
+      | Some (OList l) =>
+        match nth_error l n with
+        | Some c => (dh, set_ctx (aset k c (ctx p)) p)
+        | None => (dh, unsup p)
+        end
+      | _ => (dh, unsup p)
+      end
+    | _ => (dh, unsup p)
+    end
+  | SetInt k z => (dh, set_ctx (aset k (CInt z) (ctx p)) p)
+  | Probe => (dh, mkpriv (ctx p) (ph p) (st p) (trace p ++ [snap FUEL dh p]))
+  end.
+
+Fixpoint run (dh : heap) (p : priv) (ops : list op) : heap * priv :=
+  match ops with
+  | [] => (dh, p)
+  | o :: r => let '(dh1, p1) := step dh p o in run dh1 p1 r
+  end.
+
+(* ---------------------------------------------------------------- a run of a pipeline:
+   a fresh Context built from the caller's dict (its objects are the run's own) *)
+Definition empty_priv : priv := mkpriv [] [] Running [].
+
+Fixpoint init_ctx (kvs : list (string * tree)) (p : priv) : priv :=
+  match kvs with
+  | [] => p
+  | (k, t) :: r =>
+    let '(p1, c) := fmt FUEL [] t p in
+    init_ctx r (if running p1 then set_ctx (aset k c (ctx p1)) p1 else p1)
+  end.
+
+Record runspec := mkrun { r_init : list (string * tree); r_ops : list op }.
+
+Definition start (r : runspec) : priv := init_ctx (r_init r) empty_priv.
+
+(* what a caller can see of a finished run *)
+Record result := mkres { o_status : status; o_trace : list snapshot; o_final : snapshot }.
+Definition result_of (dh : heap) (p : priv) : result := mkres (st p) (trace p) (snap FUEL dh p).
+
+(* End of a run.  If the run stored one of ITS objects into a definition object, that object
+   outlives the run's context: the run's heap is then adopted by the definition region
+   ([P n] becomes [D (|dh| + n)]).  A run that left no such pointer leaves [dh] as it is. *)
+Definition cell_has_P (c : cell) : bool := match c with CPtr (P _) => true | _ => false end.
+Definition obj_has_P (o : obj) : bool :=
+  match o with
+  | OList l => existsb cell_has_P l
+  | ODict d => existsb (fun kc => cell_has_P (snd kc)) d
+  end.
+Definition promote_cell (off : nat) (c : cell) : cell :=
+  match c with CPtr (P n) => CPtr (D (off + n)) | _ => c end.
+Definition promote_obj (off : nat) (o : obj) : obj :=
+  match o with
+  | OList l => OList (map (promote_cell off) l)
+  | ODict d => ODict (map (fun kc => (fst kc, promote_cell off (snd kc))) d)
+  end.
+Definition finish (dh h : heap) : heap :=
+  if existsb obj_has_P dh then map (promote_obj (List.length dh)) (dh ++ h) else dh.
+
+Definition run1 (dh : heap) (r : runspec) : heap * result :=
+  let '(dh1, p1) := run dh (start r) (r_ops r) in
+  (finish dh1 (ph p1), result_of dh1 p1).
+
+(* a history: runs one after the other in one process; the definition heap persists *)
+Fixpoint history (dh : heap) (rs : list runspec) : heap * list result :=
+  match rs with
+  | [] => (dh, [])
+  | r :: rest =>
+    let '(dh1, out) := run1 dh r in
+    let '(dh2, outs) := history dh1 rest in
+    (dh2, out :: outs)
+  end.
+
+(* ---------------------------------------------------------------- loading: the yaml
+   loader allocates the definition (post-order); [roots] are the cells handed to InjectIn *)
+Fixpoint dalloc (t : tree) (dh : heap) {struct t} : heap * cell :=
+  match t with
+  | TInt z => (dh, CInt z)
+  | TRef _ _ => (dh, CInt 0)          (* data values are reference-free; not generated *)
+  | TList l =>
+    let '(dh1, cs) :=
+      (fix go (l : list tree) (dh : heap) : heap * list cell :=
+         match l with
+         | [] => (dh, [])
+         | t :: r => let '(dh1, c) := dalloc t dh in let '(dh2, cs) := go r dh1 in (dh2, c :: cs)
+         end) l dh in
+    (dh1 ++ [OList cs], CPtr (D (List.length dh1)))
+  | TDict d =>
+    let '(dh1, cs) :=
+      (fix go (l : list (string * tree)) (dh : heap) : heap * list (string * cell) :=
+         match l with
+         | [] => (dh, [])
+         | (k, t) :: r => let '(dh1, c) := dalloc t dh in let '(dh2, cs) := go r dh1 in (dh2, (k, c) :: cs)
+         end) d dh in
+    (dh1 ++ [ODict cs], CPtr (D (List.length dh1)))
+  end.
+
+Fixpoint load (ts : list tree) (dh : heap) : heap * list cell :=
+  match ts with
+  | [] => (dh, [])
+  | t :: r => let '(dh1, c) := dalloc t dh in let '(dh2, cs) := load r dh1 in (dh2, c :: cs)
+  end.
+
+(* ---------------------------------------------------------------- correspondence *)
+Definition rmode_eqb (a b : rmode) : bool :=
+  match a, b with RCopy, RCopy | RFlat, RFlat | RPy, RPy => true | _, _ => false end.
+
+Fixpoint tree_eqb (a b : tree) {struct a} : bool :=
+  match a, b with
+  | TInt x, TInt y => Z.eqb x y
+  | TRef m k, TRef m' k' => rmode_eqb m m' && String.eqb k k'
+  | TList l, TList l' =>
+    (fix go (l l' : list tree) : bool :=
+       match l, l' with
+       | [], [] => true
+       | x :: r, y :: r' => tree_eqb x y && go r r'
+       | _, _ => false
+       end) l l'
+  | TDict d, TDict d' =>
+    (fix go (l l' : list (string * tree)) : bool :=
+       match l, l' with
+       | [], [] => true
+       | (k, x) :: r, (k', y) :: r' => String.eqb k k' && tree_eqb x y && go r r'
+       | _, _ => false
+       end) d d'
+  | _, _ => false
+  end.
+
+Fixpoint list_eqb {A B} (e : A -> B -> bool) (l : list A) (l' : list B) : bool :=
+  match l, l' with
+  | [], [] => true
+  | x :: r, y :: r' => e x y && list_eqb e r r'
+  | _, _ => false
+  end.
+
+Definition snap_eqb (a b : snapshot) : bool :=
+  list_eqb (fun x y => String.eqb (fst x) (fst y) && tree_eqb (snd x) (snd y)) a b.
+
+(* observed outcome: None = completed, Some name = error class name *)
+Definition status_matches (s : status) (o : option string) : bool :=
+  match s, o with
+  | Running, None => true
+  | Failed e, Some e' => String.eqb e e'
+  | _, _ => false
+  end.
+
+Definition is_unsup (s : status) : bool := match s with Unsup => true | _ => false end.
+
+(* the observation of one run: outcome, trace, final context, and the value of every
+   definition root AFTER the run *)
+Definition obs := (option string * list snapshot * snapshot * list tree)%type.
+
+Fixpoint model_obs (dh : heap) (roots : list cell) (rs : list runspec) : list (result * list tree) :=
+  match rs with
+  | [] => []
+  | r :: rest =>
+    let '(dh1, out) := run1 dh r in
+    (out, map (resolve FUEL dh1 []) roots) :: model_obs dh1 roots rest
+  end.
+
+Definition obs_matches (m : result * list tree) (o : obs) : bool :=
+  let '(out, tr, fin, defs) := o in
+  status_matches (o_status (fst m)) out && list_eqb snap_eqb (o_trace (fst m)) tr
+  && snap_eqb (o_final (fst m)) fin && list_eqb tree_eqb (snd m) defs.
+
+(* 0 agree / 1 disagree / 2 outside the model *)
+Definition c12_check (defs : list tree) (mk : (nat -> cell) -> list runspec) (observed : list obs) : nat :=
+  let '(dh, roots) := load defs [] in
+  let ms := model_obs dh roots (mk (fun n => nth n roots (CInt 0))) in
+  if existsb (fun m => is_unsup (o_status (fst m))) ms then 2%nat
+  else if list_eqb (fun m o => obs_matches m o) ms observed then 0%nat else 1%nat.
+
+Definition c12_show (defs : list tree) (mk : (nat -> cell) -> list runspec) :=
+  let '(dh, roots) := load defs [] in
+  model_obs dh roots (mk (fun n => nth n roots (CInt 0))).
+
+(* ---------------------------------------------------------------- the discipline: a
+   syntactic (decidable) check of an op list.  [T] = keys that MAY be bound to a definition
+   object (bound by InjectIn, or by a by-reference copy of such a key).  A run is
+   disciplined when no in-place operation (append / py / contextmerge / default) targets a
+   key in [T], and no value obtained BY REFERENCE from a key in [T] is stored inside a
+   container (where the static check would lose track of it). *)
+Definition tainted (T : list string) (k : string) : bool := existsb (String.eqb k) T.
+Definition taint (k : string) (T : list string) : list string := if tainted T k then T else k :: T.
+Definition untaint (k : string) (T : list string) : list string :=
+  filter (fun x => negb (String.eqb k x)) T.
+
+Fixpoint byref_tainted (T : list string) (t : tree) {struct t} : bool :=
+  match t with
+  | TInt _ => false
+  | TRef RCopy _ => false
+  | TRef _ k => tainted T k
+  | TList l => existsb (byref_tainted T) l
+  | TDict d => existsb (fun kt => byref_tainted T (snd kt)) d
+  end.
+
+(* context[k] = format(t) *)
+Definition bind_taint (T : list string) (k : string) (t : tree) : option (list string) :=
+  match t with
+  | TRef RCopy _ => Some (untaint k T)
+  | TRef _ k' => Some (if tainted T k' then taint k T else untaint k T)
+  | _ => if byref_tainted T t then None else Some (untaint k T)
+  end.
+
+Definition merge_taint (T : list string) (kv : string * tree) : option (list string) :=
+  match snd kv with
+  | TRef _ _ => bind_taint T (fst kv) (snd kv)
+  | v => if tainted T (fst kv) || byref_tainted T v then None else Some T
+  end.
+
+Definition defaults_taint (T : list string) (kv : string * tree) : option (list string) :=
+  if tainted T (fst kv) then None else
+  match snd kv with
+  | TRef RCopy _ => Some T
+  | TRef _ k' => Some (if tainted T k' then taint (fst kv) T else T)
+  | v => if byref_tainted T v then None else Some T
+  end.
+
+Fixpoint fold_taint {A} (f : list string -> A -> option (list string)) (T : list string) (l : list A)
+  : option (list string) :=
+  match l with
+  | [] => Some T
+  | x :: r => match f T x with Some T1 => fold_taint f T1 r | None => None end
+  end.
+
+Definition check_op (T : list string) (o : op) : option (list string) :=
+  match o with
+  | InjectIn k _ => Some (taint k T)
+  | Unset k => Some (untaint k T)
+  | SetFmt k t => bind_taint T k t
+  | CopyRef k k' | BindElem k k' _ => Some (if tainted T k' then taint k T else untaint k T)
+  | AppendKey k t | AppendObj _ k t => if tainted T k || byref_tainted T t then None else Some T
+  | PyAppend k _ | PySetItem k _ _ => if tainted T k then None else Some T
+  | Merge ps => fold_taint merge_taint T ps
+  | Defaults ps => fold_taint defaults_taint T ps
+  | SetInt k _ => Some (untaint k T)
+  | Probe => Some T
+  end.
+
+Definition disciplined (ops : list op) : bool :=
+  match fold_taint check_op [] ops with Some _ => true | None => false end.
+
+(* the definition heap holds no pointer into a (finished) run's heap *)
+Definition closed (dh : heap) : bool := negb (existsb obj_has_P dh).
+
+(* ---------------------------------------------------------------- interleaving, for ANY
+   machine with a shared part S and per-thread private parts P *)
+Section Interleave.
+  Context {S Pv O : Type} (stp : S -> Pv -> O -> S * Pv).
+
+  (* thread alone, shared part as it evolves *)
+  Fixpoint exec (s : S) (p : Pv) (ops : list O) : S * Pv :=
+    match ops with
+    | [] => (s, p)
+    | o :: r => let '(s1, p1) := stp s p o in exec s1 p1 r
+    end.
+
+  (* every step of the thread, run alone from [s], leaves the shared part equal to [s] *)
+  Fixpoint read_only (s : S) (p : Pv) (ops : list O) : Prop :=
+    match ops with
+    | [] => True
+    | o :: r => fst (stp s p o) = s /\ read_only s (snd (stp s p o)) r
+    end.
+
+  Definition set_thread (t : nat) (p : Pv) (ps : nat -> Pv) : nat -> Pv :=
+    fun x => if Nat.eqb x t then p else ps x.
+
+  (* a schedule = an arbitrary merge of the threads' op lists: (thread id, its next op) *)
+  Fixpoint sched_run (s : S) (ps : nat -> Pv) (sch : list (nat * O)) : S * (nat -> Pv) :=
+    match sch with
+    | [] => (s, ps)
+    | (t, o) :: r => let '(s1, p1) := stp s (ps t) o in sched_run s1 (set_thread t p1 ps) r
+    end.
+
+  Definition proj (t : nat) (sch : list (nat * O)) : list O :=
+    map snd (filter (fun x => Nat.eqb (fst x) t) sch).
+End Interleave.
